@@ -24,6 +24,13 @@ CLAIMED = {
             "cylindrical) with centre, radius, width, levels, amplitudes symbolic; tanh / trig / harmonics as "
             "axiomatised symbols; z3 decides geometry = own min-image metric and spherical-angle relations, "
             "range, midpoint <=> inside, indicator, monotonicity, translation = roll, emulsion = clip(sum)", "§4 C03"),
+    "C04": ("bounded symbolic execution of refine_droplet on fields of symbolic values (Cartesian 1D/2D, polar, "
+            "spherical, cylindrical with periodic z; every compatible class; levels given / automatic; adjust_values) "
+            "with scipy least_squares as a contract stub (scipy's ValueErrors for infeasible starts; otherwise any "
+            "point within the bounds): z3 decides that the start handed to the optimiser is feasible (no exception), "
+            "class, parameter ranges, symmetry-fixed coordinates, wrapping into the box, image untouched, and that the "
+            "returned droplet carries exactly the optimiser's result. 'Never worsens the fit' is the contract's own "
+            "clause; convergence / 'unchanged up to tolerance' are not decided", "§4 C04"),
     "C06": ("bounded symbolic execution of DropletTrackList.from_emulsion_time_course on time courses of <=3 frames x "
             "<=2 droplets (thorough: 3 droplets / 4 frames), 1D/2D, with and without periodic grid, both methods; "
             "positions, radii, times and cut-off symbolic; partition, copy-independence, consecutive-frame and "
